@@ -83,6 +83,8 @@ type sbE2E struct {
 	Archs  []string `json:"archs"`
 	Budget int      `json:"budget,omitempty"` // > 0: layering strategy "origin" with this budget
 	VCS    string   `json:"vcs,omitempty"`
+	// architectures come from the configuration's `archs:` list (one of them spelled twice through an alias), no --arch
+	ConfigArchs bool `json:"config_archs,omitempty"`
 }
 type sbCase struct {
 	Kind        string    `json:"kind"` // direct | e2e
